@@ -36,6 +36,8 @@ pub enum Item {
     BadEtf(Vec<u8>),
     WrongFirstByte(u8),
     NotControlTuple,
+    /// a long run of undecodable frames (17..=96, three kinds in rotation, a tick after every fourth): bad frames never add up
+    BadRun(u8),
     /// silence for this many virtual seconds, the peer ticking every 15 s
     Quiet(u8),
     LocalSend { to: u8, payload: Value },
@@ -190,6 +192,25 @@ fn run_net(c: &Case) -> Result<Result<Outcome, String>, BedErr> {
                 Item::NotControlTuple => {
                     had_bad = true;
                     bytes = pass_through_frame(&Value::atom("not_a_tuple"), Some(&Value::int(1)));
+                }
+                Item::BadRun(n) => {
+                    had_bad = true;
+                    let n = 17 + (*n as usize % 80);
+                    for k in 0..n {
+                        let body = match k % 3 {
+                            0 => vec![112u8, 131, 104, 2, 255],
+                            1 => {
+                                let mut f = send_frame(&pid_value(&live[0].0), &Value::atom("must_not_arrive"));
+                                f[4] = 113;
+                                f[4..].to_vec()
+                            }
+                            _ => pass_through_frame(&Value::atom("not_a_tuple"), Some(&Value::int(1)))[4..].to_vec(),
+                        };
+                        bytes.extend_from_slice(&frame4(&body));
+                        if k % 4 == 3 {
+                            bytes.extend_from_slice(&[0, 0, 0, 0]);
+                        }
+                    }
                 }
                 Item::Quiet(secs) => {
                     had_quiet = true;
@@ -378,6 +399,7 @@ fn strategy() -> impl Strategy<Value = Case> {
         2 => prop::collection::vec(any::<u8>(), 0..12).prop_map(Item::BadEtf),
         2 => any::<u8>().prop_map(Item::WrongFirstByte),
         1 => Just(Item::NotControlTuple),
+        1 => any::<u8>().prop_map(Item::BadRun),
         2 => any::<u8>().prop_map(Item::Quiet),
         1 => (0u8..3, term()).prop_map(|(to, payload)| Item::LocalSend { to, payload }),
         1 => (0u8..3, any::<u16>()).prop_map(|(to, n)| Item::Burst { to, n }),
@@ -393,7 +415,7 @@ fn strategy() -> impl Strategy<Value = Case> {
 
 pub fn run(run: &mut Run) {
     run.rule = "a started Node with three registered recorder processes, one dead process and a never-existing pid, connected to a scripted peer that sends generated sequences of inbound frames: SEND to live/dead/unknown \
-        pids, REG_SEND to registered/unknown names, EXIT, MONITOR_P_EXIT, ignored control kinds, ticks, three kinds of undecodable frame (bad ETF behind 112, wrong first byte, non-tuple control term), quiet periods of \
+        pids, REG_SEND to registered/unknown names, EXIT, MONITOR_P_EXIT, ignored control kinds, ticks, three kinds of undecodable frame (bad ETF behind 112, wrong first byte, non-tuple control term) singly and in runs of 17..96, quiet periods of \
         5..120 virtual seconds with the peer ticking every 15 s, local sends in between, optionally ended by an over-long length prefix, a close inside a frame or a plain close. After every item a marker message \
         through the same connection must arrive and the peer must still be in connections(); after a fatal item the peer must disappear from connections(). Recorder logs must equal the model exactly. \
         Non-trivial = script has a bad frame, a quiet period or a fatal ending"
